@@ -307,7 +307,7 @@ func (x *Exec) mutexArr(st *State) *Term {
 		arr0 := x.heapArr(st, key, BoolSort)
 		// a function whose own precondition speaks about mutexes (mutexheld(...)) states
 		// what it needs itself; for every other function the callers hold none
-		own := false
+		own := x.contract != nil && x.contract.MutexUnknown
 		if x.contract != nil {
 			for _, r := range x.contract.Requires {
 				if strings.Contains(r.Src, "mutexheld(") {
